@@ -242,7 +242,16 @@ func (c *c19) nameSet(fd *ast.FuncDecl, e ast.Expr) ([]string, bool) {
 	if tv := c.info.Types[e]; tv.Value != nil && tv.Value.Kind() == constant.String {
 		return []string{constant.StringVal(tv.Value)}, true
 	}
-	o := identObj(c.info, e)
+	// v, or v.<field> of a struct element
+	var fieldName string
+	base := ast.Unparen(e)
+	if sel, ok := base.(*ast.SelectorExpr); ok {
+		if s := c.info.Selections[sel]; s != nil && s.Kind() == types.FieldVal {
+			fieldName = sel.Sel.Name
+			base = sel.X
+		}
+	}
+	o := identObj(c.info, base)
 	if o == nil {
 		return nil, false
 	}
@@ -253,13 +262,34 @@ func (c *c19) nameSet(fd *ast.FuncDecl, e ast.Expr) ([]string, bool) {
 		if !ok || rs.Value == nil || identObj(c.info, rs.Value) != o && c.info.Defs[identOf(rs.Value)] != o {
 			return true
 		}
-		cl, ok := ast.Unparen(rs.X).(*ast.CompositeLit)
-		if !ok {
+		cl := c.constSliceLit(fd, rs.X)
+		if cl == nil {
 			return true
 		}
 		var ns []string
 		for _, el := range cl.Elts {
-			tv := c.info.Types[el]
+			ve := el
+			if fieldName != "" {
+				ecl, ok := ast.Unparen(el).(*ast.CompositeLit)
+				if !ok {
+					return true
+				}
+				ve = nil
+				st, _ := c.info.TypeOf(ecl).Underlying().(*types.Struct)
+				for k, fe := range ecl.Elts {
+					if kv, isKV := fe.(*ast.KeyValueExpr); isKV {
+						if id, ok := kv.Key.(*ast.Ident); ok && id.Name == fieldName {
+							ve = kv.Value
+						}
+					} else if st != nil && k < st.NumFields() && st.Field(k).Name() == fieldName {
+						ve = fe
+					}
+				}
+				if ve == nil {
+					return true
+				}
+			}
+			tv := c.info.Types[ve]
 			if tv.Value == nil || tv.Value.Kind() != constant.String {
 				return true
 			}
@@ -273,12 +303,71 @@ func (c *c19) nameSet(fd *ast.FuncDecl, e ast.Expr) ([]string, bool) {
 			}
 			return true
 		})
-		if !skip {
+		if !skip && len(ns) > 0 {
 			names, found = ns, true
 		}
 		return true
 	})
 	return names, found
+}
+
+// constSliceLit: e is a composite literal of a slice/array, or a variable assigned exactly once
+// from one (and never appended to / indexed for writing).
+func (c *c19) constSliceLit(fd *ast.FuncDecl, e ast.Expr) *ast.CompositeLit {
+	e = ast.Unparen(e)
+	if cl, ok := e.(*ast.CompositeLit); ok {
+		return cl
+	}
+	o := identObj(c.info, e)
+	if o == nil {
+		return nil
+	}
+	var rhs []ast.Expr
+	mutated := false
+	ast.Inspect(fd.Body, func(n ast.Node) bool {
+		switch x := n.(type) {
+		case *ast.AssignStmt:
+			for i, l := range x.Lhs {
+				if identObj(c.info, l) == o {
+					if len(x.Lhs) == len(x.Rhs) {
+						rhs = append(rhs, x.Rhs[i])
+					} else {
+						mutated = true
+					}
+				}
+				if ix, ok := ast.Unparen(l).(*ast.IndexExpr); ok && identObj(c.info, ix.X) == o {
+					mutated = true
+				}
+			}
+		case *ast.UnaryExpr:
+			if x.Op == token.AND && identObj(c.info, x.X) == o {
+				mutated = true
+			}
+		}
+		return true
+	})
+	if mutated || len(rhs) != 1 {
+		return nil
+	}
+	cl, _ := ast.Unparen(rhs[0]).(*ast.CompositeLit)
+	return cl
+}
+
+// ownedNames: e is path.Join(<dir param>, X) with X ranging over constant names (nameSet).
+func (c *c19) ownedNames(fd *ast.FuncDecl, e ast.Expr) ([]string, bool) {
+	call, ok := ast.Unparen(e).(*ast.CallExpr)
+	if !ok {
+		return nil, false
+	}
+	nm := calleeName(c.info, call)
+	if (nm != "path.Join" && nm != "path/filepath.Join") || len(call.Args) != 2 {
+		return nil, false
+	}
+	d := identObj(c.info, call.Args[0])
+	if d == nil || paramIndex(c.info, fd, d) < 0 {
+		return nil, false
+	}
+	return c.nameSet(fd, call.Args[1])
 }
 
 func identOf(e ast.Expr) *ast.Ident {
@@ -429,6 +518,10 @@ func (c *c19) eventsOf(fd *ast.FuncDecl, n ast.Node) (evs []c19event, bad []stri
 				}
 				if name, _, ok := c.ownedName(fd, arg, 0); ok {
 					evs = append(evs, c19event{"write", name, call.Pos()})
+				} else if names, ok := c.ownedNames(fd, arg); ok {
+					for _, nm := range names {
+						evs = append(evs, c19event{"write", nm, call.Pos()})
+					}
 				} else {
 					bad = append(bad, callee.Name()+"("+types.ExprString(arg)+") is not path.Join(<outDir param>, <const>)")
 				}
@@ -843,7 +936,7 @@ func (c *c19) pathSensitive(fd *ast.FuncDecl, fkey string, files []string) {
 		// head→done edge is feasible only after the body was entered
 		if b.Kind == cfg.KindRangeLoop && len(b.Succs) == 2 {
 			if rs, ok := b.Stmt.(*ast.RangeStmt); ok {
-				if cl, ok := ast.Unparen(rs.X).(*ast.CompositeLit); ok && len(cl.Elts) > 0 {
+				if cl := c.constSliceLit(fd, rs.X); cl != nil && len(cl.Elts) > 0 {
 					lk := fmt.Sprintf("loop@%d", rs.Pos())
 					body, done := b.Succs[0], b.Succs[1]
 					if body.Kind != cfg.KindRangeBody {
